@@ -34,16 +34,29 @@ def conv(kind, v):
 
 
 def make_ts(a):
+    if a.get("single_mutation_sites"):      # LdCalculator needs sites with exactly one mutation and a derived state != ancestral
+        a = dict(a)
+        keep, seen = [], set()
+        for m in a["muts"]:
+            if m["site"] not in seen:
+                seen.add(m["site"])
+                anc = a["sites"][m["site"]]["anc"]
+                keep.append(dict(m, parent=-1, der=m["der"] if m["der"] != anc else (anc + 1) % 4))
+        a["muts"] = keep
     t = gen.build_tables(a, metadata=True)
     rng = random.Random(5)
     abstr.decorate(t, rng, n_ind=2, n_pop=1)
+    if a.get("no_edge_metadata"):
+        t.edges.drop_metadata()       # simplify / link_ancestors / squash refuse edges with metadata
+    else:
+        t.migrations.add_row(0, t.sequence_length, 0, 0, 0, float(max(t.nodes.time)) + 1, metadata=b"g0")
     t.provenances.add_row(record="{}", timestamp="now")
     t.build_index()
     return t.tree_sequence()
 
 
 def dims_of(ts):
-    return dict(nodes=ts.num_nodes, edges=ts.num_edges, sites=ts.num_sites, mutations=ts.num_mutations, individuals=ts.num_individuals,
+    return dict(samples=ts.num_samples, nodes=ts.num_nodes, edges=ts.num_edges, sites=ts.num_sites, mutations=ts.num_mutations, individuals=ts.num_individuals,
                 populations=ts.num_populations, migrations=ts.num_migrations, provenances=ts.num_provenances, trees=ts.num_trees, sets=2,
                 L=int(ts.sequence_length))
 
@@ -114,19 +127,260 @@ def call(ts, tree, variant, name, kinds, args):
     raise KeyError(name)
 
 
+
+# ---------------------------------------------------------------------------------------------------------
+# automatically discovered entry points: every public method of the main classes, parameters typed by name
+ID_PARAMS = {"u", "v", "node", "root", "id_", "index", "site", "site_id", "individual", "population", "population_id", "parent", "child", "a", "b",
+             "dest", "source", "mutation", "edge"}
+LIST_PARAMS = {"nodes", "samples", "focal", "ancestors", "tracked_samples", "within", "site_ids", "sites", "individuals", "populations", "node_mapping",
+               "tracked_leaves", "omit_sites", "parents", "location"}
+LISTLIST_PARAMS = {"sample_sets", "between"}
+WINDOW_PARAMS = {"windows", "time_windows", "breakpoints", "quantiles", "positions"}
+POS_PARAMS = {"position", "left", "right", "x"}
+TIME_PARAMS = {"time", "max_time", "min_time", "t", "min_span", "epsilon", "lambda_", "max_distance", "span", "branch_length"}
+SMALL_PARAMS = {"ploidy", "num_threads", "precision", "root_threshold", "edge_start", "site_start", "mutation_start", "num_rows", "max_iter", "max_sites",
+                "max_num_trees", "size", "width", "wrap_width", "max_mutations", "num_components", "num_iterations", "num_oversamples", "arity",
+                "output_dim", "random_seed", "flags", "length"}
+LENGTH_PARAMS = {"keep", "site_mask", "sample_mask", "genotypes", "W"}
+SKIP_METHODS = {"draw", "draw_svg", "draw_text", "dump", "dump_text", "write_fasta", "write_nexus", "write_vcf", "to_macs", "as_nexus", "as_fasta", "as_vcf",
+                "to_nexus", "to_fasta", "_repr_html_", "pca"}     # pure-Python renderers / writers (C12-C18 cover their content); pca is randomised linear algebra
+
+
+KIND_OVERRIDE = {("TreeSequence.ld_matrix", "sites"): "site_lists", ("TreeSequence.ld_matrix", "positions"): "windows"}
+
+
+def kind_of(param):
+    if param in ID_PARAMS:
+        return "id"
+    if param in LIST_PARAMS:
+        return "id_list"
+    if param in LISTLIST_PARAMS:
+        return "id_list_list"
+    if param == "indexes":
+        return "index_tuples"
+    if param in WINDOW_PARAMS:
+        return "windows"
+    if param == "intervals":
+        return "intervals"
+    if param in POS_PARAMS:
+        return "position"
+    if param in TIME_PARAMS:
+        return "time"
+    if param in SMALL_PARAMS:
+        return "small"
+    if param in LENGTH_PARAMS:
+        return "length"
+    return None
+
+
+AUTO_CLASSES = ["TreeSequence", "Tree", "TableCollection", "NodeTable", "EdgeTable", "SiteTable", "MutationTable", "IndividualTable", "PopulationTable",
+                "MigrationTable", "ProvenanceTable", "Variant", "LdCalculator"]
+
+
+def discover():
+    """(name, kind) pairs: name = Class.method:param[:flipped boolean keyword]"""
+    import inspect
+    out = []
+    nmeth = 0
+    for cn in AUTO_CLASSES:
+        c = getattr(tskit, cn)
+        for n, m in inspect.getmembers(c, predicate=inspect.isfunction):
+            if n.startswith("_") or n in SKIP_METHODS:
+                continue
+            try:
+                sig = inspect.signature(m)
+            except (TypeError, ValueError):
+                continue
+            nmeth += 1
+            params = list(sig.parameters.values())[1:]
+            bools = [p.name for p in params if isinstance(p.default, bool)]
+            for p in params:
+                k = KIND_OVERRIDE.get(("%s.%s" % (cn, n), p.name)) or kind_of(p.name)
+                if k is None:
+                    continue
+                out.append(["%s.%s:%s" % (cn, n, p.name), k])
+                for b in bools:
+                    out.append(["%s.%s:%s:%s" % (cn, n, p.name, b), k])
+    return out, nmeth
+
+
+ARITY_OF = {"divergence": 2, "Fst": 2, "Y2": 2, "f2": 2, "genetic_relatedness": 2, "Y3": 3, "f3": 3, "f4": 4, "pair_coalescence_counts": 2,
+            "pair_coalescence_quantiles": 2, "pair_coalescence_rates": 2, "genetic_relatedness_weighted": 2}
+
+
+def default_args(ts, cn, obj, params, S, mn=None):
+    """benign values for required parameters (by name); None when the method cannot be called generically"""
+    import inspect
+    import io
+    n = ts.num_nodes
+    tabname = {"NodeTable": "nodes", "EdgeTable": "edges", "SiteTable": "sites", "MutationTable": "mutations", "IndividualTable": "individuals",
+               "PopulationTable": "populations", "MigrationTable": "migrations", "ProvenanceTable": "provenances"}.get(cn)
+    nrows = len(obj) if tabname else 0
+    table = {
+        "u": 0, "v": 1, "node": 0, "id_": 0, "index": 0, "site": 0, "site_id": 0, "a": 0, "b": min(1, max(0, ts.num_sites - 1)), "t": 1.0, "time": 1.0,
+        "position": 0.0, "left": 0.0, "right": float(ts.sequence_length), "parent": n - 1, "child": 0, "dest": 0, "source": 0,
+        "W": np.ones((ts.num_samples, 1)), "f": (lambda x: x), "output_dim": 1, "sample_sets": [S], "focal": S[:1], "nodes": list(range(n)),
+        "samples": S, "ancestors": [n - 1], "intervals": [[0.0, 1.0]], "windows": [0.0, float(ts.sequence_length)], "time_windows": np.array([0.0, 1.0, float("inf")]),
+        "quantiles": [0.5], "genotypes": np.zeros(ts.num_samples, dtype=np.int8), "num_components": 1, "positions": [0.5], "length": float(ts.sequence_length),
+        "key": "x", "keep": [True] * nrows, "num_rows": nrows, "site_ids": [0], "sites": [0], "node_mapping": list(range(n)), "rank": (0, 0), "num_leaves": 3,
+        "ancestral_state": "A", "derived_state": "T", "record": "{}", "alleles": ("A", "T"), "file_or_path": io.BytesIO(), "output": io.StringIO(),
+        "ancestral_states": ["A"] * nrows, "derived_states": ["T"] * nrows, "records": ["{}"] * nrows, "timestamps": ["t"] * nrows,
+        "metadatas": [b""] * nrows, "locations": [[0.0]] * nrows, "parents": [[-1]] * nrows, "row": (obj[0] if tabname and nrows else None),
+    }
+    if cn == "TreeSequence":
+        table["other"] = ts
+    elif cn == "Tree":
+        table["other"] = ts.last()
+    elif cn == "TableCollection":
+        table["other"] = ts.dump_tables()
+    elif tabname:
+        table["other"] = getattr(ts.dump_tables(), tabname)
+    kw = {}
+    for p in params:
+        if p.kind in (p.VAR_KEYWORD, p.VAR_POSITIONAL):
+            continue
+        if p.default is inspect._empty:
+            if p.name not in table or table[p.name] is None:
+                return None
+            kw[p.name] = table[p.name]
+    names = {p.name for p in params}
+    if cn == "TreeSequence" and mn in ARITY_OF:
+        k = ARITY_OF[mn]
+        if "sample_sets" in names:
+            kw["sample_sets"] = [[u] for u in S[:4]]
+        if "W" in names:
+            kw["W"] = np.ones((ts.num_samples, 2))
+        if "indexes" in names:
+            kw["indexes"] = [tuple(range(k))] if mn != "genetic_relatedness_weighted" else [(0, 1)]
+    if cn == "TreeSequence" and mn == "count_topologies":
+        kw["sample_sets"] = [[u] for u in S[:3]]
+    if mn == "union":
+        kw["node_mapping"] = [tskit.NULL] * ts.num_nodes
+    return kw
+
+
+def auto_value(ts, kind, pname, v, S):
+    if kind == "id_list_list":
+        l = [int(x) for x in v]
+        return [l, S] if len(l) % 2 else [S, l]
+    if kind == "site_lists":       # one or two lists of site ids
+        l = [int(x) for x in v]
+        return [[l], [[0], l], [l, l]][len(l) % 3]
+    if kind == "index_tuples":
+        return [tuple(int(x) for x in v)] if len(v) else []
+    if kind == "length":
+        if pname == "W":
+            return np.ones((int(v), 1))
+        if pname == "genotypes":
+            return np.zeros(int(v), dtype=np.int8)
+        return np.ones(int(v), dtype=bool)
+    if kind == "windows":
+        return np.array(conv(kind, v), dtype=float)
+    if kind in ("intervals", "position", "time"):
+        return conv(kind, v)
+    return v
+
+
+def call_auto(ts, objs, name, kind, arg, S):
+    import inspect
+    parts = name.split(":")
+    cn, mn = parts[0].split(".")
+    pname = parts[1]
+    flip = parts[2] if len(parts) > 2 else None
+    obj = objs(cn)
+    m = getattr(obj, mn)
+    params = list(inspect.signature(m).parameters.values())
+    kw = default_args(ts, cn, obj, params, S, mn)
+    if kw is None:
+        return "uncallable"
+    kw[pname] = auto_value(ts, kind, pname, arg, S)
+    if flip:
+        d = [p.default for p in params if p.name == flip][0]
+        kw[flip] = not d
+    r = m(**kw)
+    if inspect.isgenerator(r) or hasattr(r, "__next__"):
+        r = [x for _, x in zip(range(50), r)]
+    return r
+
+
+COLUMN_FAULTS = ["truncate", "extend", "empty", "offset_nonmonotone", "offset_last_short", "offset_last_long", "offset_first_nonzero", "offset_negative",
+                 "offset_huge", "wrong_dtype_float"]
+
+
+def call_columns(ts, tname, cidx, fault, method):
+    """set_columns / append_columns with one damaged column; afterwards every row is read, the table is copied and compared"""
+    tables = ts.dump_tables()
+    t = getattr(tables, tname)
+    cols = {k: v for k, v in t.asdict().items() if k != "metadata_schema"}
+    names = sorted(cols)
+    if cidx >= len(names):
+        return "nocolumn"
+    k = names[cidx]
+    a = np.array(cols[k])
+    if fault == "truncate":
+        a = a[:-1] if len(a) else a
+    elif fault == "extend":
+        a = np.concatenate([a, a[-1:] if len(a) else np.zeros(1, dtype=a.dtype)])
+    elif fault == "empty":
+        a = a[:0]
+    elif fault == "wrong_dtype_float":
+        a = a.astype(np.float64) + 0.5
+    else:
+        if not k.endswith("_offset") or len(a) < 2:
+            return "nocolumn"
+        a = a.copy()
+        if fault == "offset_nonmonotone":
+            a[len(a) // 2] = a[-1] + 7
+        elif fault == "offset_last_short":
+            a[-1] = max(0, int(a[-1]) - 1)
+        elif fault == "offset_last_long":
+            a[-1] = a[-1] + 9
+        elif fault == "offset_first_nonzero":
+            a[0] = 1
+        elif fault == "offset_negative":
+            a = a.astype(np.int64)
+            a[1] = -5
+        elif fault == "offset_huge":
+            a[-1] = 2 ** 40
+    cols[k] = a
+    getattr(t, method)(**cols)
+    # accepted: the table must be fully readable and self-consistent
+    rows = [r for r in t]
+    t2 = t.copy()
+    assert t2.equals(t)
+    repr(rows)[:10]
+    tables.dump(os.devnull) if False else None
+    return "accepted"
+
+
 def run_programs(item):
     """worker: item = dict(a=abstract ts, programs=[...]) -> outcomes"""
     import signal
     ts = make_ts(item["a"])
     base = probe(ts)
     out = []
+    longtree = ts.first(sample_lists=True)     # a Tree that lives through the whole batch: history accumulates on it
     signal.signal(signal.SIGALRM, signal.SIG_DFL)      # a call that does not return within 30 s kills the worker: "hang"
     for p in item["programs"]:
         signal.alarm(30)
         tree = ts.first(sample_lists=True)
         variant = tskit.Variant(ts) if ts.num_sites else None
         try:
-            r = call(ts, tree, variant, p["name"], p["kinds"], p["args"])
+            if p["name"] == "columns":
+                r = call_columns(ts, *p["args"])
+            elif ":" in p["name"]:
+                tabs = ts.dump_tables()
+                lookup = dict(TreeSequence=ts, Tree=(longtree if p.get("long") else tree), TableCollection=tabs, Variant=variant, NodeTable=tabs.nodes, EdgeTable=tabs.edges,
+                              SiteTable=tabs.sites, MutationTable=tabs.mutations, IndividualTable=tabs.individuals, PopulationTable=tabs.populations,
+                              MigrationTable=tabs.migrations, ProvenanceTable=tabs.provenances)
+                r = call_auto(ts, lambda cn: lookup[cn] if cn != "LdCalculator" else tskit.LdCalculator(ts), p["name"], p["kinds"][0], p["args"][0],
+                              [int(u) for u in ts.samples()])
+                if isinstance(r, str) and r == "uncallable":
+                    out.append(["uncallable", 1])
+                    signal.alarm(0)
+                    continue
+            else:
+                r = call(ts, tree, variant, p["name"], p["kinds"], p["args"])
             # touch the result so that lazily produced garbage is read under the sanitizer
             repr(r)[:10]
             oc = "ok"
@@ -137,6 +391,8 @@ def run_programs(item):
         # no latent corruption: the same legal probe must give the same answer, also through the used Tree
         try:
             same = probe(ts) == base and (tree.index == -1 or tree.index < ts.num_trees)
+            if p.get("long") and longtree.index != -1:
+                same = same and [int(x) for x in longtree.parent_array] == [int(x) for x in ts.at_index(longtree.index).parent_array]
         except BaseException as e:
             same = False
         out.append([oc, 1 if same else 0])
@@ -225,18 +481,37 @@ def run():
     # ---------- single calls over boundary values, on a few valid tree sequences
     nts = 2 if QUICK else 12
     total = 0
+    uncallable = set()
+    called = set()
+    okc = {}
     for k in range(nts):
         while True:
             a = gen.random_abstract(rng, N=rng.randint(4, 7), K=rng.randint(2, 4), max_edges=10, nsites=3, nmuts=3, nalleles=4, p_internal_sample=0.2)
-            if sum(a["flags"]) >= 3 and len(a["sites"]) >= 1 and len(a["edges"]) >= 3:
+            if sum(a["flags"]) >= 4 and len(a["sites"]) >= 2 and len(a["edges"]) >= 3:
                 break
+        a["no_edge_metadata"] = 1 if k % 2 == 0 else 0
+        a["single_mutation_sites"] = 1 if k % 2 == 1 else 0
         ts = make_ts(a)
         tmp = tempfile.mkdtemp(prefix="c09_")
         try:
             dpath = os.path.join(tmp, "dims.json")
             with open(dpath, "w") as fh:
                 json.dump(dims_of(ts), fh)
-            progs, st = common.tlc_eval_json("Dump_Api", env={"DIMS": dpath}, timeout=600)
+            apath = os.path.join(tmp, "auto.json")
+            auto, nmeth = discover()
+            with open(apath, "w") as fh:
+                json.dump(auto, fh)
+            progs, st = common.tlc_eval_json("Dump_Api", env={"DIMS": dpath, "AUTO": apath}, timeout=900)
+            curated = [p for p in progs if ":" not in p["name"] and p["name"] != "columns"]
+            autos = [p for p in progs if ":" in p["name"]]
+            colps = [p for p in progs if p["name"] == "columns"]
+            chk.extra.update(auto_methods=nmeth, auto_entries=len(auto), auto_programs_enumerated=len(autos), column_programs_enumerated=len(colps))
+            if QUICK:
+                colps = rng.sample(colps, min(len(colps), 400))
+            # Tree methods are also run on a long-lived Tree object that accumulates the history of the whole batch
+            autos = autos + [dict(p, long=1) for p in autos if p["name"].startswith("Tree.")]
+            rng.shuffle(autos)
+            progs = curated + autos + colps
         finally:
             import shutil
             shutil.rmtree(tmp, ignore_errors=True)
@@ -258,17 +533,33 @@ def run():
                 flat.extend(zip(it["programs"], r))
         for p, o in flat:
             total += 1
+            ent = p["name"].split(":")[0] + (":" + p["name"].split(":")[1] if ":" in p["name"] else "")
+            okc[ent] = okc.get(ent, 0) + (1 if o[0] == "ok" or o[0] == "accepted" else 0)
             chk.note_case(dict(ts=k, name=p["name"], args=p["args"]), True)
             key = "%s%s" % (p["name"], p["args"])
             if o[0] == "crash":
-                chk.violation("call %s%s crashed / sanitizer report:\n%s" % (p["name"], p["args"], o[1]), dict(a=a, program=p))
+                sig = None
+                nn = ts.num_nodes
+                if p["name"].split(":")[0] in ("tables.link_ancestors_ancestors", "TableCollection.link_ancestors") and "ancestor_mapper_init_ancestors" in o[1] \
+                        and (":" not in p["name"] or p["name"].split(":")[1] == "ancestors") and isinstance(p["args"][0], list) \
+                        and nn in p["args"][0] and all(0 <= x <= nn for x in p["args"][0]):
+                    sig = "link-ancestors-ancestor-id-equals-num-nodes"
+                chk.violation("call %s%s crashed / sanitizer report:\n%s" % (p["name"], p["args"], o[1]), dict(a=a, program=p), signature=sig)
             elif p["must_raise"] and o[0] == "ok":
                 chk.violation("out-of-range identifier accepted silently: %s%s returned normally" % (p["name"], p["args"]), dict(a=a, program=p))
+            elif o[0] == "uncallable":
+                uncallable.add(p["name"].split(":")[0])
             elif not o[1]:
                 chk.violation("latent corruption: after %s%s (%s) a legal probe gives a different answer" % (p["name"], p["args"], o[0]), dict(a=a, program=p))
             else:
                 chk.traces += 1
+                if ":" in p["name"]:
+                    called.add(p["name"].split(":")[0])
     chk.extra["single_calls"] = total
+    chk.extra["auto_methods_called"] = len(called)
+    chk.extra["entries_with_a_returning_call"] = sum(1 for v in okc.values() if v)
+    chk.extra["entries_never_returning"] = sorted(k_ for k_, v in okc.items() if not v)
+    chk.extra["auto_methods_uncallable"] = sorted(uncallable - called)
     # ---------- table algorithms on the corruption universe of C02
     from harness.props.c02 import seeds
     sd = seeds(rng, 6 if QUICK else 60)
